@@ -66,6 +66,16 @@ package tls
 //@ site reflect.New#1 as nw
 //@ site reflect.Zero#1 as zr
 //@ site parseField#1 as rec
+//@ site parseField#2 as el
+//@ site reflect.MakeSlice#2 as mkv
+//@ site reflect.Append#1 as ap
+//@ at el assert [vector-element-decoded-at-the-running-offset-inside-the-vector-bytes] el.data == inner && el.initOffset == innerOffset && el.info == nil
+//@ at mkv assert [vector-allocation-no-larger-than-the-vector-bytes] mkv.len == 0 && 0 <= mkv.cap && mkv.cap == int(rvs.res0) && mkv.cap <= len(data) - initOffset
+//@ at ap assert [every-decoded-element-is-appended] el.called && el.res1 == nil
+//@ loop 3 invariant el.called ==> el.res1 == nil && el.res0 == innerOffset
+//@ loop 3 invariant !el.called ==> innerOffset == 0
+//@ ensures [vector-consumes-its-prefix-and-declared-length] rvs.called && result1 == nil ==> result0 == initOffset + int(info.count) + int(rvs.res0)
+//@ ensures [vector-elements-account-for-every-byte-of-the-vector] mkv.called && result1 == nil ==> (el.called && el.res0 == int(rvs.res0)) || (!el.called && rvs.res0 == 0)
 //@ at rec assert [struct-field-decoded-at-the-running-offset-with-its-own-tag-info] rec.data == data && rec.initOffset == offset && rec.info == fieldInfo
 //@ at rec assert [a-selected-variant-is-decoded-into-a-newly-made-object] fieldInfo.selector != "" ==> nw.called
 //@ at nw assert [only-the-chosen-variant-is-made-and-only-once] fieldInfo.selector != "" && choice == fieldInfo.val && !seen
